@@ -29,6 +29,16 @@ def gen_cases(seed, n_rts, n_vals, depth=3, strict=False):
     return cases
 
 
+def gen_forced(seed, n, n_vals, strict=False):
+    g = gen.Gen(seed + 99991)
+    cases = []
+    for env, rt in gen.forced_cases(seed, n):
+        vals = [v for v in g.values_for(rt, env, n_vals, strict=strict) if not gen.has_bad_keys(v)]
+        if vals:
+            cases.append({"env": env, "rt": rt, "vals": vals, "source": "forced"})
+    return cases
+
+
 def histogram(cases):
     h = collections.Counter()
     for c in cases:
